@@ -277,8 +277,8 @@ FAULTS = [
 ]
 
 
-def fault_program(k, fault, side, msg, frag):
-    cfg = {'msg': msg, 'frag': [frag, frag], 'rbuf': [64, 64]}
+def fault_program(k, fault, side, msg, frag, exc_style='str'):
+    cfg = {'msg': msg, 'frag': [frag, frag], 'rbuf': [64, 64], 'exc_style': exc_style}
     els = [[20, 0], [0, 15], [30, 5]]
     spec = {'k': k if k != 'setup' else 'rr', 'side': side, 'req': [8, 3]}
     if k in ('rr', 'setup'):
@@ -426,13 +426,21 @@ def matrix_shard(tier, seed, part, parts):
     common.use_repo()
     stats = common.Stats()
     known = common.Known(PID)
-    combos = list(itertools.product(FAULTS, ('c', 's'), (False, True), (None, 64)))
-    for i, ((k, fault), side, msg, frag) in enumerate(combos):
+    from harness import app as A
+    # ... and how the application builds its exception: message, no argument, a non-string argument, a wrapped exception,
+    # several arguments, bytes (the full cross product for the message style, the other styles rotate over framing / fragments)
+    combos = []
+    for (k, fault), side in itertools.product(FAULTS, ('c', 's')):
+        for msg, frag in itertools.product((False, True), (None, 64)):
+            combos.append(((k, fault), side, msg, frag, 'str'))
+        for j, style in enumerate(A.EXC_STYLES[1:]):
+            combos.append(((k, fault), side, bool(j % 2), (None, 64)[(j // 2) % 2], style))
+    for i, ((k, fault), side, msg, frag, style) in enumerate(combos):
         if i % parts != part:
             continue
-        prog = fault_program(k, fault, side, msg, frag)
+        prog = fault_program(k, fault, side, msg, frag, style)
         vs, tr = judge_fault(prog)
-        stats.case(prog, True, ['part=appfaults', 'fault=%s:%s' % (k, fault)], sample_limit=1)
+        stats.case(prog, True, ['part=appfaults', 'fault=%s:%s' % (k, fault), 'exception_built_with=' + style], sample_limit=1)
         for v in common.judge(stats, known, prog, vs):
             if not any(v['sig'] == vv['sig'] for vv, _ in stats.violations):
                 stats.violations.append((v, prog))
